@@ -176,9 +176,22 @@ def sweep_programs(scan, intro):
             probes.append(Probe('consistent-unit table', False, hdr, 'const int OBJ{%s};' % ex, 'std::to_string(OBJ)|std::to_string(%s)' % ex, 'ConsistentUnit<%s>(%s)' % (ut, sy['name'])))
         ex = 'PhQ::Dimensions(PhQ::RelatedDimensions<%s>).Print()' % U
         probes.append(Probe('dimension set', False, hdr, 'const std::string OBJ{%s};' % ex, 'OBJ|%s' % ex, 'RelatedDimensions<%s>' % ut))
-    for sy in systems:
-        ex = 'std::string(PhQ::Abbreviation(PhQ::UnitSystem::%s))' % sy['name']
-        probes.append(Probe('abbreviation table', False, ['PhQ/UnitSystem.hpp'], 'const std::string OBJ{%s};' % ex, 'OBJ|%s' % ex, 'Abbreviation(UnitSystem::%s)' % sy['name']))
+    # the two non-unit enumerations: every accepted spelling (all separator styles) parsed before main()
+    for e in intro['enumerations']:
+        if e['kind'] == 'unit_system': ty, hdr = 'PhQ::UnitSystem', ['PhQ/UnitSystem.hpp']
+        elif e['kind'] == 'model_type': ty, hdr = 'PhQ::ConstitutiveModel::Type', ['PhQ/ConstitutiveModel.hpp']
+        else: continue
+        for sp, _ in e.get('spellings', []):
+            try: sp.encode('utf-8')
+            except Exception: continue
+            if '\ufffd' in sp: continue
+            lit = json.dumps(sp, ensure_ascii=False)
+            ex = 'static_cast<int>(PhQ::ParseEnumeration<%s>(%s).value_or(static_cast<%s>(-1)))' % (ty, lit, ty)
+            probes.append(Probe('spelling table', False, hdr, 'const int OBJ{%s};' % ex, 'std::to_string(OBJ)|std::to_string(%s)' % ex, 'ParseEnumeration<%s>(%s)' % (ty.split('::')[-1] if 'Unit' in ty else 'ConstitutiveModel::Type', lit)))
+        for en in e['enumerators']:
+            if not en.get('has_abbreviation'): continue
+            ex = 'std::string(PhQ::Abbreviation(%s::%s))' % (ty, en['name'])
+            probes.append(Probe('abbreviation table', False, hdr, 'const std::string OBJ{%s};' % ex, 'OBJ|%s' % ex, 'Abbreviation(%s::%s)' % (ty, en['name'])))
     out = []
     for inline_objects in (False, True):
         n = len(probes); third = (n + 2) // 3
